@@ -122,7 +122,11 @@ def run(ctx):
         sig = model.layout_sig(h)
         ctx.count("c05.model.%s" % wname.split("(")[0])
         try:
-            with built.ix.searcher(weighting=wobj) as s:
+            psz = model.partsize_for(idx)
+            if psz is not None:
+                ctx.count("c05.small_array_parts")
+                wb["array_partsize(default of ArrayUnionMatcher)"] = psz
+            with model.array_partsize(psz), built.ix.searcher(weighting=wobj) as s:
                 plan = [None] * 14
                 if staged:
                     # pair sweep: every And / Or of two frequent words, optionally with the first one boosted, small k
